@@ -220,6 +220,18 @@ func (in *Interp) assertion(c *Term, label string) {
 		want = in.wantTerms()
 	}
 	r, m := in.sol.Check(in.pc, neg, want)
+	if r == Unknown {
+		// portfolio fallback: fresh processes of the other solvers with a longer limit
+		terms := append(append([]*Term{}, in.pc...), neg)
+		for _, alt := range in.cfg.Fallbacks {
+			st.Fallbacks++
+			in.res.Events["fallback query to "+alt]++
+			r, m = oneShot(alt, in.tb, terms, want, in.cfg.FallbackS)
+			if r != Unknown {
+				break
+			}
+		}
+	}
 	switch r {
 	case Unsat:
 		st.Proved++
